@@ -809,7 +809,8 @@ fn derive(sess: &Sess, stepv: &Value, w: &Wire) -> Derived {
           }
           None => {
             if streamed_oversize {
-              "read_err"
+              // the body stream's "length limit exceeded" error
+              "limit_err"
             } else if w.incomplete == Incomplete::Stall {
               "stall"
             } else if w.incomplete == Incomplete::Truncated {
@@ -843,7 +844,7 @@ fn derive(sess: &Sess, stepv: &Value, w: &Wire) -> Derived {
           }
           "empty" => d.expect = "2xx",
           "stall" => d.expect = "any",
-          "read_err" if streamed_oversize => d.expect = "413",
+          "limit_err" => d.expect = "413",
           _ => d.expect = "4xx",
         }
       }
